@@ -9,11 +9,11 @@ CONSTANTS
   Queries <- MC_Queries
   Ranges <- MC_Ranges
   Chunk = 1
-  MaxFP = 1
+  MaxFP = 0
   BatchPool <- MC_BatchPool2
-  MaxCrash = 0
+  MaxCrash = 1
   ExportDepth = 0
   ExportDir <- MC_ExportDir
-INVARIANTS IndexConsistent RefinesQueries NoStaleEntry RebuildSafe
+INVARIANTS IndexConsistent NoStaleEntry RebuildSafe
 PROPERTIES RebuildKeepsRecords
 CHECK_DEADLOCK FALSE
